@@ -1,7 +1,21 @@
-// C14 correspondence harness: factored index/enumerator core (src/Factored/Utils/Core.cpp).
+// C14 correspondence harness. Part A: factored index/enumerator core (src/Factored/Utils/Core.cpp);
+// Part B: factored algebra, DDN/backProject, single-factor == flat equivalences.
 // Exhaustive over all small factor spaces, then seeded random larger ones.
 #include "common/verif.hpp"
 #include <AIToolbox/Factored/Utils/Core.hpp>
+#include <AIToolbox/Factored/Utils/FactoredMatrix.hpp>
+#include <AIToolbox/Factored/Utils/BayesianNetwork.hpp>
+#include <AIToolbox/Factored/MDP/CooperativeModel.hpp>
+#include <AIToolbox/Factored/MDP/Algorithms/JointActionLearner.hpp>
+#include <AIToolbox/Factored/MDP/Algorithms/CooperativeQLearning.hpp>
+#include <AIToolbox/Factored/MDP/Algorithms/SparseCooperativeQLearning.hpp>
+#include <AIToolbox/Factored/Bandit/Model.hpp>
+#include <AIToolbox/Factored/Bandit/FlattenedModel.hpp>
+#include <AIToolbox/Bandit/Model.hpp>
+#include <AIToolbox/MDP/Algorithms/QLearning.hpp>
+#include <AIToolbox/MDP/Model.hpp>
+#include <sys/wait.h>
+#include <unistd.h>
 
 using namespace verif;
 namespace F = AIToolbox::Factored;
@@ -19,13 +33,6 @@ static void build_spaces(int maxFactors, int maxSize) {
             if (i == n) break;
         }
     }
-}
-
-static const int kRandomQuick = 150, kRandomThorough = 3000;
-
-long verif::verif_ncases(const std::string & tier) {
-    if (tier == "thorough") build_spaces(4, 4); else build_spaces(3, 3);
-    return (long)g_spaces.size() + (tier == "thorough" ? kRandomThorough : kRandomQuick);
 }
 
 static void emit_rt(const F::Factors & sp, size_t id) {
@@ -113,7 +120,7 @@ static void all_subsets(const F::Factors & sp, Rng & rng) {
     }
 }
 
-void verif::verif_case(Rng & rng, long idx, const std::string & tier) {
+static void core_case(Rng & rng, long idx, const std::string & tier) {
     if (idx < (long)g_spaces.size()) {
         const auto & sp = g_spaces[idx];
         size_t total = F::factorSpace(sp);
@@ -150,6 +157,722 @@ void verif::verif_case(Rng & rng, long idx, const std::string & tier) {
     }
     if (total <= 5000) { size_t k = rng.below(n); emit_pie(sp, k, rng.below(sp[k])); }
     for (int t = 0; t < 3; ++t) emit_merge(rng, sp);
+}
+
+// ===================================================================================================
+// Part B: factored algebra, DDN / backProject, single-factor-equals-flat equivalences
+// ===================================================================================================
+using AIToolbox::Vector;
+using AIToolbox::Matrix2D;
+namespace FM_ = AIToolbox::Factored::MDP;
+
+static void emit_piek(const F::Factors & sp, const F::PartialKeys & keys, size_t fixed, size_t val, bool missing) {
+    F::PartialIndexEnumerator e(sp, keys, fixed, val, missing);
+    std::vector<size_t> seq; size_t guard = 0;
+    while (e.isValid() && guard++ < 100000) { seq.push_back(*e); e.advance(); }
+    Line l; l << "C14" << "piek"; l.nats(sp); l.nats(keys) << fixed << val << missing << "|"; l.nats(seq); l.emit();
+}
+
+static void emit_tipf(const F::Factors & sp, const F::PartialFactors & pf) {
+    if (pf.first.empty()) return;     // toIndex(space, pf) reads pf.first[0] unconditionally
+    size_t idx = F::toIndex(sp, pf);
+    auto full = F::toFactors(sp.size(), pf);
+    Line l; l << "C14" << "tipf"; l.nats(sp); l.nats(pf.first); l.nats(pf.second); l << "|" << idx; l.nats(full); l.emit();
+}
+static void emit_misc(Rng & rng, const F::Factors & sp) {
+    auto pf = randomPF(rng, sp);
+    F::Factors full(sp.size()), other(sp.size());
+    for (size_t k = 0; k < sp.size(); ++k) { full[k] = rng.below(sp[k]); other[k] = rng.coin(2, 3) ? full[k] : rng.below(sp[k]); }
+    if (rng.coin(2, 3)) for (size_t j = 0; j < pf.first.size(); ++j) pf.second[j] = full[pf.first[j]];
+    size_t f = rng.below(sp.size());
+    auto rem = F::removeFactor(pf, f);
+    bool m1 = F::match(full, pf), m2 = F::match(pf.first, full, other);
+    auto jn = F::join(full, other);
+    Line l; l << "C14" << "misc"; l.nats(sp); l.nats(pf.first); l.nats(pf.second); l.nats(full); l.nats(other) << f << "|";
+    l.nats(rem.first); l.nats(rem.second) << m1 << m2; l.nats(jn); l.emit();
+}
+
+static void emit_skipidx(Rng & rng, const F::Factors & sp) {
+    F::PartialKeys keys; for (size_t k = 0; k < sp.size(); ++k) if (rng.coin(2, 3)) keys.push_back(k);
+    if (keys.empty()) keys.push_back(rng.below(sp.size()));
+    F::Factors full(sp.size()); for (size_t k = 0; k < sp.size(); ++k) full[k] = rng.below(sp[k]);
+    size_t tm = rng.coin(3, 4) ? keys[rng.below(keys.size())] : rng.below(sp.size());
+    auto [first, sm] = F::toIndexPartialAndSkip(keys, sp, full, tm);
+    Line l; l << "C14" << "skipidx"; l.nats(sp); l.nats(keys); l.nats(full) << tm << "|" << first << sm << F::toIndexPartial(keys, sp, full); l.emit();
+}
+static void emit_misc2(Rng & rng, const F::Factors & sp) {
+    auto a = randomPF(rng, sp), b = randomPF(rng, sp);
+    std::vector<std::pair<size_t, size_t>> matches;
+    auto mk = F::merge(a.first, b.first, &matches);
+    auto mv = F::merge(a.first, a.second, b.first, b.second);
+    size_t S = sp.size();
+    auto j = F::join(S, a, b);
+    F::Factors full(sp.size()); for (size_t k = 0; k < sp.size(); ++k) full[k] = rng.below(sp[k]);
+    auto tp = F::toPartialFactors(full);
+    Line l; l << "C14" << "misc2"; l.nats(a.first); l.nats(a.second); l.nats(b.first); l.nats(b.second) << S; l.nats(full) << "|";
+    l.nats(mk); l << (size_t)matches.size(); for (auto & m : matches) l << m.first; l << (size_t)matches.size(); for (auto & m : matches) l << m.second;
+    l.nats(mv); l.nats(j.first); l.nats(j.second); l.nats(tp.first); l.nats(tp.second);
+    l << F::match(matches, a.second, b.second) << F::match(a.first, a.second, b.first, b.second); l.emit();
+}
+
+static double dy(Rng & rng) { return (double)rng.range(-32, 32) / 4.0; }
+
+static F::Factors randSpace(Rng & rng, int maxF, int maxD, size_t cap) {
+    while (true) {
+        F::Factors sp((size_t)rng.range(1, maxF));
+        for (auto & d : sp) d = (size_t)rng.range(1, maxD);
+        if (F::factorSpace(sp) <= cap) return sp;
+    }
+}
+static F::PartialKeys randTag(Rng & rng, size_t n) {
+    F::PartialKeys t;
+    for (size_t k = 0; k < n; ++k) if (rng.coin()) t.push_back(k);
+    if (t.empty()) t.push_back(rng.below(n));
+    return t;
+}
+// a tag related to `base` (subset / superset / equal / unrelated), to make merges frequent
+static F::PartialKeys relTag(Rng & rng, size_t n, const F::PartialKeys & base) {
+    int mode = (int)rng.below(5);
+    if (mode == 0) return base;
+    if (mode == 1) { F::PartialKeys t; for (auto k : base) if (rng.coin(2, 3)) t.push_back(k); if (t.empty()) t.push_back(base[rng.below(base.size())]); return t; }
+    if (mode == 2) { std::vector<bool> in(n, false); for (auto k : base) in[k] = true; for (size_t k = 0; k < n; ++k) if (rng.coin(1, 3)) in[k] = true;
+                     F::PartialKeys t; for (size_t k = 0; k < n; ++k) if (in[k]) t.push_back(k); return t; }
+    return randTag(rng, n);
+}
+static F::BasisFunction randBF(Rng & rng, const F::Factors & sp, const F::PartialKeys & tag) {
+    F::BasisFunction b; b.tag = tag;
+    b.values.resize((long)F::factorSpacePartial(tag, sp));
+    for (long i = 0; i < b.values.size(); ++i) b.values[i] = dy(rng);
+    return b;
+}
+static F::FactoredVector randFV(Rng & rng, const F::Factors & sp, int maxBases, const F::PartialKeys * rel = nullptr) {
+    F::FactoredVector fv; int n = (int)rng.range(0, maxBases);
+    for (int i = 0; i < n; ++i) fv.bases.push_back(randBF(rng, sp, rel ? relTag(rng, sp.size(), *rel) : randTag(rng, sp.size())));
+    return fv;
+}
+static void putBF(Line & l, const F::BasisFunction & b) { l.nats(b.tag); l.nums(b.values); }
+static void putFV(Line & l, const F::FactoredVector & fv) { l << (size_t)fv.bases.size(); for (auto & b : fv.bases) putBF(l, b); }
+static void putMat(Line & l, const Matrix2D & m) {
+    l << (size_t)m.rows();
+    for (long r = 0; r < m.rows(); ++r) { l << (size_t)m.cols(); for (long c = 0; c < m.cols(); ++c) l << (double)m(r, c); }
+}
+static void putBM(Line & l, const F::BasisMatrix & b) { l.nats(b.tag); l.nats(b.actionTag); putMat(l, b.values); }
+static void putFM(Line & l, const F::FactoredMatrix2D & fm) { l << (size_t)fm.bases.size(); for (auto & b : fm.bases) putBM(l, b); }
+static void putGets(Line & l, const F::Factors & sp, const F::FactoredVector & fv) {
+    size_t n = F::factorSpace(sp); l << n;
+    for (size_t id = 0; id < n; ++id) l << fv.getValue(sp, F::toFactors(sp, id));
+}
+static void putGetsM(Line & l, const F::Factors & sp, const F::Factors & ac, const F::FactoredMatrix2D & fm) {
+    size_t n = F::factorSpace(sp), m = F::factorSpace(ac); l << n * m;
+    for (size_t id = 0; id < n; ++id) for (size_t a = 0; a < m; ++a) l << fm.getValue(sp, ac, F::toFactors(sp, id), F::toFactors(ac, a));
+}
+
+static void emit_bfop(const char * name, const F::Factors & sp, const F::BasisFunction & lhs, const F::BasisFunction & rhs) {
+    std::string nm(name);
+    F::BasisFunction r = nm == "dot" ? F::dot(sp, lhs, rhs) : nm == "plus" ? F::plus(sp, lhs, rhs) : F::minus(sp, lhs, rhs);
+    size_t pi = F::factorSpacePartial(r.tag, sp);
+    size_t shown = std::min<size_t>(pi, (size_t)r.values.size());
+    Line l; l << "C14" << "bfop" << name; l.nats(sp); putBF(l, lhs); putBF(l, rhs); l << "|";
+    l.nats(r.tag) << (size_t)r.values.size() << shown;
+    for (size_t i = 0; i < shown; ++i) l << (double)r.values[(long)i];
+    F::FactoredVector fv; fv.bases.push_back(r);
+    putGets(l, sp, fv); l.emit();
+    ::printf("#stat bfop_%s_%s 1\n", name, r.values.size() == (long)pi ? "exact_size" : "oversized");
+}
+static void emit_subset(bool minus, const F::Factors & sp, const F::BasisFunction & ret, const F::BasisFunction & rhs) {
+    F::BasisFunction r = minus ? F::minusSubset(sp, ret, rhs) : F::plusSubset(sp, ret, rhs);
+    Line l; l << "C14" << "subset" << (minus ? "minus" : "plus"); l.nats(sp); putBF(l, ret); putBF(l, rhs); l << "|";
+    l.nums(r.values);
+    F::FactoredVector fv; fv.bases.push_back(r); putGets(l, sp, fv); l.emit();
+}
+static void emit_fvop(bool minus, const F::Factors & sp, const F::FactoredVector & fv, const F::BasisFunction & b, int variant) {
+    F::FactoredVector r = fv;
+    if (minus) { if (variant == 0) F::minusEqual(sp, r, b); else r = F::minus(sp, fv, b); }
+    else {
+        if (variant == 0) F::plusEqual(sp, r, b);
+        else if (variant == 1) { F::BasisFunction tmp = b; F::plusEqual(sp, r, std::move(tmp)); }
+        else r = F::plus(sp, fv, b);
+    }
+    Line l; l << "C14" << "fvop" << (minus ? "minus" : "plus"); l.nats(sp); putFV(l, fv); putBF(l, b); l << "|";
+    putFV(l, r); putGets(l, sp, r); l.emit();
+    ::printf("#stat fvop_%s 1\n", r.bases.size() == fv.bases.size() ? "merged" : "appended");
+}
+static void emit_fvfv(bool minus, const F::Factors & sp, const F::FactoredVector & fv, const F::FactoredVector & rhs, int variant) {
+    F::FactoredVector r = fv;
+    if (minus) { if (variant == 0) F::minusEqual(sp, r, rhs); else r = F::minus(sp, fv, rhs); }
+    else {
+        if (variant == 0) F::plusEqual(sp, r, rhs);
+        else if (variant == 1) { F::FactoredVector tmp = rhs; F::plusEqual(sp, r, std::move(tmp)); }
+        else r = F::plus(sp, fv, rhs);
+    }
+    Line l; l << "C14" << "fvfv" << (minus ? "minus" : "plus"); l.nats(sp); putFV(l, fv); putFV(l, rhs); l << "|";
+    putFV(l, r); putGets(l, sp, r); l.emit();
+}
+// minusEqual(..., clearZero = true); rhs with one basis goes through the BasisFunction overload
+static void emit_fvcz(const F::Factors & sp, const F::FactoredVector & fv, const F::FactoredVector & rhs) {
+    F::FactoredVector r = fv;
+    if (rhs.bases.size() == 1) F::minusEqual(sp, r, rhs.bases[0], true); else F::minusEqual(sp, r, rhs, true);
+    Line l; l << "C14" << "fvcz"; l.nats(sp); putFV(l, fv); putFV(l, rhs); l << "|"; putFV(l, r); putGets(l, sp, r); l.emit();
+    ::printf("#stat fvcz_%s 1\n", r.bases.size() < fv.bases.size() ? "dropped" : "kept");
+}
+static void emit_fvscale(const F::Factors & sp, const F::FactoredVector & fv, double c, bool left) {
+    F::FactoredVector r = left ? c * fv : fv * c;
+    Line l; l << "C14" << "fvscale"; l.nats(sp); putFV(l, fv); l << c << "|"; putFV(l, r); putGets(l, sp, r); l.emit();
+}
+static void emit_fvscalew(const F::Factors & sp, const F::FactoredVector & fv, const Vector & w, bool left) {
+    F::FactoredVector r = left ? w * fv : fv * w;
+    Line l; l << "C14" << "fvscalew"; l.nats(sp); putFV(l, fv); l.nums(w); l << "|"; putFV(l, r); putGets(l, sp, r);
+    size_t n = F::factorSpace(sp); l << n;
+    for (size_t id = 0; id < n; ++id) l << fv.getValue(sp, F::toFactors(sp, id), w);
+    l.emit();
+}
+
+static F::BasisMatrix randBM(Rng & rng, const F::Factors & sp, const F::Factors & ac, const F::PartialKeys & tag, const F::PartialKeys & atag) {
+    F::BasisMatrix b; b.tag = tag; b.actionTag = atag;
+    b.values.resize((long)F::factorSpacePartial(tag, sp), (long)F::factorSpacePartial(atag, ac));
+    for (long r = 0; r < b.values.rows(); ++r) for (long c = 0; c < b.values.cols(); ++c) b.values(r, c) = dy(rng);
+    return b;
+}
+static F::FactoredMatrix2D randFMx(Rng & rng, const F::Factors & sp, const F::Factors & ac, int maxBases, const F::PartialKeys & relS, const F::PartialKeys & relA) {
+    F::FactoredMatrix2D fm; int n = (int)rng.range(0, maxBases);
+    for (int i = 0; i < n; ++i) fm.bases.push_back(randBM(rng, sp, ac, relTag(rng, sp.size(), relS), relTag(rng, ac.size(), relA)));
+    return fm;
+}
+static void emit_fmop(const F::Factors & sp, const F::Factors & ac, const F::FactoredMatrix2D & fm, const F::BasisMatrix & b, bool mv) {
+    F::FactoredMatrix2D r = fm;
+    if (mv) { F::BasisMatrix tmp = b; F::plusEqual(sp, ac, r, std::move(tmp)); } else F::plusEqual(sp, ac, r, b);
+    Line l; l << "C14" << "fmop"; l.nats(sp); l.nats(ac); putFM(l, fm); putBM(l, b); l << "|"; putFM(l, r); putGetsM(l, sp, ac, r); l.emit();
+    ::printf("#stat fmop_%s 1\n", r.bases.size() == fm.bases.size() ? "merged" : "appended");
+}
+static void emit_fmfm(const F::Factors & sp, const F::Factors & ac, const F::FactoredMatrix2D & fm, const F::FactoredMatrix2D & rhs, bool mv) {
+    F::FactoredMatrix2D r = fm;
+    if (mv) { F::FactoredMatrix2D tmp = rhs; F::plusEqual(sp, ac, r, std::move(tmp)); } else F::plusEqual(sp, ac, r, rhs);
+    Line l; l << "C14" << "fmfm"; l.nats(sp); l.nats(ac); putFM(l, fm); putFM(l, rhs); l << "|"; putFM(l, r); putGetsM(l, sp, ac, r); l.emit();
+}
+static void emit_fmscale(const F::Factors & sp, const F::Factors & ac, const F::FactoredMatrix2D & fm, double c, const Vector & w) {
+    F::FactoredMatrix2D rc = fm * c, rw = w * fm;
+    Line l; l << "C14" << "fmscale"; l.nats(sp); l.nats(ac); putFM(l, fm); l << c; l.nums(w); l << "|";
+    putFM(l, rc); putGetsM(l, sp, ac, rc); putFM(l, rw); putGetsM(l, sp, ac, rw);
+    size_t n = F::factorSpace(sp), m = F::factorSpace(ac); l << n * m;
+    for (size_t id = 0; id < n; ++id) for (size_t a = 0; a < m; ++a) l << fm.getValue(sp, ac, F::toFactors(sp, id), F::toFactors(ac, a), w);
+    l.emit();
+}
+// weights: dyadic; with the constant only when |bases| is a power of two (so that w_c/|bases| is exact)
+static Vector randWeights(Rng & rng, size_t nb) {
+    bool pow2 = nb == 1 || nb == 2 || nb == 4;
+    bool withConst = pow2 && rng.coin();
+    Vector w((long)(nb + (withConst ? 1 : 0)));
+    for (long i = 0; i < w.size(); ++i) w[i] = (double)rng.range(-8, 8) / 2.0;
+    return w;
+}
+
+// ---------------------------------------------------------------- probes (forked child)
+static void probe(const std::string & comp, const std::string & kind, const std::function<void()> & fn) {
+    std::fflush(stdout);
+    pid_t pid = fork();
+    if (pid == 0) {
+        std::freopen("/dev/null", "w", stderr); std::freopen("/dev/null", "w", stdout);
+        try { fn(); } catch (...) { _exit(3); }
+        _exit(0);
+    }
+    int st = 0; bool crashed = true;
+    if (pid > 0 && waitpid(pid, &st, 0) == pid) crashed = !(WIFEXITED(st) && WEXITSTATUS(st) == 0);
+    Line l; l << "C14" << "probe" << comp << kind << (crashed ? "crash" : "ok"); l.emit();
+}
+
+static void fixed_cases(Rng & rng) {
+    F::Factors sp{2, 3};
+    // --- witness #8: minusEqual adds.  5 - 2 must be 3 (merged, appended, and FactoredVector forms)
+    {
+        F::BasisFunction a{{0}, Vector(2)}; a.values << 5, 5;
+        F::BasisFunction b{{0}, Vector(2)}; b.values << 2, 2;
+        F::BasisFunction c{{1}, Vector(3)}; c.values << 2, 2, 2;
+        F::BasisFunction d{{0, 1}, Vector(6)}; d.values << 2, 2, 2, 2, 2, 2;
+        F::FactoredVector fa; fa.bases.push_back(a);
+        emit_fvop(true, sp, fa, b, 0);      // same tag: in-place merge
+        emit_fvop(true, sp, fa, c, 0);      // unrelated tag: appended
+        emit_fvop(true, sp, fa, d, 0);      // incoming basis bigger: merged the other way round
+        emit_fvop(true, sp, fa, b, 1);
+        F::FactoredVector fb; fb.bases.push_back(b); fb.bases.push_back(c);
+        emit_fvfv(true, sp, fa, fb, 0);
+        emit_fvfv(true, sp, fa, fb, 1);
+        emit_fvop(false, sp, fa, b, 0); emit_fvop(false, sp, fa, c, 1); emit_fvop(false, sp, fa, d, 2);
+        emit_fvfv(false, sp, fa, fb, 0);
+        F::FactoredVector fz; fz.bases.push_back(a); fz.bases.push_back(c);
+        F::FactoredVector one; one.bases.push_back(a);
+        emit_fvcz(sp, fz, one);            // a - a = 0: basis dropped, value 2 everywhere
+        F::BasisFunction na = a; na.values *= -1.0;
+        F::FactoredVector mone; mone.bases.push_back(na);
+        emit_fvcz(sp, fz, mone);           // a - (-a) = 2a (the snapshot adds: drops the basis)
+    }
+    // --- witness #22: dot/plus/minus size their result with toIndexPartial(tag, space, space)
+    {
+        F::BasisFunction a{{0, 1}, Vector(6)}; a.values << 1, 2, 3, 4, 5, 6;
+        F::BasisFunction b{{0, 1}, Vector(6)}; b.values << 10, 20, 30, 40, 50, 60;
+        F::BasisFunction c{{1}, Vector(3)}; c.values << 1, 2, 4;
+        emit_bfop("plus", sp, a, b); emit_bfop("minus", sp, a, b); emit_bfop("dot", sp, a, b);
+        emit_bfop("plus", sp, a, c); emit_bfop("dot", sp, c, a); emit_bfop("minus", sp, c, c);
+        // the consequence: the sum of two functions cannot be added to a third one of the same tag
+        probe("plus(BasisFunction)", "values_oversized", [=] {
+            F::FactoredVector fv; fv.bases.push_back(F::plus(sp, a, b));
+            F::plusEqual(sp, fv, a);
+            if (fv.getValue(sp, {1, 2}) != 6 + 60 + 6) _exit(4);
+        });
+        probe("dot(BasisFunction)", "values_oversized", [=] {
+            F::FactoredVector fv; fv.bases.push_back(F::dot(sp, a, b));
+            F::plusEqual(sp, fv, a);
+            if (fv.getValue(sp, {1, 2}) != 6 * 60 + 6) _exit(4);
+        });
+        probe("minus(BasisFunction)", "values_oversized", [=] {
+            F::FactoredVector fv; fv.bases.push_back(F::minus(sp, b, a));
+            F::plusEqual(sp, fv, a);
+            if (fv.getValue(sp, {1, 2}) != 60 - 6 + 6) _exit(4);
+        });
+    }
+    // --- empty FactoredVector / FactoredMatrix2D scaled by an (equally empty) weights vector: documented precondition
+    //     |w| == |bases| holds, the weighted combination of no functions is the zero function
+    probe("FactoredVector::operator*=(Vector)", "reads_weights_of_empty_vector", [=] {
+        F::FactoredVector fv; Vector w(0); fv *= w;
+        if (fv.getValue(sp, {1, 2}) != 0.0 || fv.getValue(sp, {1, 2}, w) != 0.0) _exit(4);
+    });
+    probe("FactoredMatrix2D::operator*=(Vector)", "reads_weights_of_empty_vector", [=] {
+        F::FactoredMatrix2D fm; Vector w(0); fm *= w;
+        if (fm.getValue(sp, sp, {1, 2}, {0, 1}) != 0.0) _exit(4);
+    });
+    // --- size-1 factors and a single-factor space
+    {
+        F::Factors s1{1, 3, 1};
+        F::BasisFunction a{{0, 1}, Vector(3)}; a.values << 1, 2, 3;
+        F::BasisFunction b{{1, 2}, Vector(3)}; b.values << 10, 20, 30;
+        emit_bfop("plus", s1, a, b); emit_bfop("dot", s1, a, b);
+        F::FactoredVector fa; fa.bases.push_back(a);
+        emit_fvop(false, s1, fa, b, 0);
+        F::Factors s2{4};
+        F::BasisFunction c{{0}, Vector(4)}; c.values << 1, 2, 3, 4;
+        emit_bfop("minus", s2, c, c);
+        F::FactoredVector fc; fc.bases.push_back(c); fc.bases.push_back(c);
+        Vector w(3); w << 2.0, 0.5, 3.0;
+        emit_fvscalew(s2, fc, w, false);
+    }
+    (void)rng;
+}
+
+static void alg_case(Rng & rng, const std::string & tier) {
+    bool th = tier == "thorough";
+    F::Factors sp = th ? randSpace(rng, 5, 4, 128) : randSpace(rng, 4, 3, 54);
+    size_t n = sp.size();
+    auto t1 = randTag(rng, n);
+    auto t2 = relTag(rng, n, t1);
+    auto a = randBF(rng, sp, t1), b = randBF(rng, sp, t2);
+    const char * ops[3] = {"dot", "plus", "minus"};
+    emit_bfop(ops[rng.below(3)], sp, a, b);
+    emit_bfop(ops[rng.below(3)], sp, b, a);
+    // subset ops need rhs.tag ⊆ ret.tag
+    {
+        F::PartialKeys sub; for (auto k : t1) if (rng.coin(2, 3)) sub.push_back(k);
+        if (sub.empty()) sub.push_back(t1[rng.below(t1.size())]);
+        auto r = randBF(rng, sp, sub);
+        emit_subset(rng.coin(), sp, a, r);
+        emit_subset(rng.coin(), sp, a, randBF(rng, sp, t1));
+    }
+    auto fv = randFV(rng, sp, 4, &t1);
+    emit_fvop(false, sp, fv, b, (int)rng.below(3));
+    emit_fvop(true, sp, fv, b, (int)rng.below(2));
+    auto fv2 = randFV(rng, sp, 3, &t1);
+    emit_fvfv(false, sp, fv, fv2, (int)rng.below(3));
+    emit_fvfv(true, sp, fv, fv2, (int)rng.below(2));
+    // clearZero: subtract (or, to hit the snapshot's adding behaviour, add) copies of stored bases so that some become zero
+    if (!fv.bases.empty()) {
+        F::FactoredVector z; int nz = (int)rng.range(1, 2);
+        for (int t = 0; t < nz; ++t) {
+            auto b = fv.bases[rng.below(fv.bases.size())];
+            if (rng.coin()) b.values *= -1.0;
+            // perturbations straddling checkEqualGeneral's 1e-6: 2^-21 (4.8e-7, still "zero"), 2^-19 (1.9e-6, not zero), 1/4
+            if (rng.coin(1, 2)) { static const double eps[3] = {0x1p-21, 0x1p-19, 0.25};
+                b.values[(long)rng.below((size_t)b.values.size())] += (rng.coin() ? 1 : -1) * eps[rng.below(3)]; }
+            z.bases.push_back(b);
+        }
+        emit_fvcz(sp, fv, z);
+    }
+    emit_fvscale(sp, fv, (double)rng.range(-8, 8) / 2.0, rng.coin());
+    if (!fv.bases.empty()) emit_fvscalew(sp, fv, randWeights(rng, fv.bases.size()), rng.coin());
+    // matrices
+    F::Factors ac = randSpace(rng, 3, 3, 12);
+    F::Factors sps = F::factorSpace(sp) > 18 ? randSpace(rng, 3, 3, 18) : sp;
+    auto ts = randTag(rng, sps.size()); auto ta = randTag(rng, ac.size());
+    auto fm = randFMx(rng, sps, ac, 3, ts, ta);
+    auto bmx = randBM(rng, sps, ac, relTag(rng, sps.size(), ts), relTag(rng, ac.size(), ta));
+    emit_fmop(sps, ac, fm, bmx, rng.coin());
+    auto fm2 = randFMx(rng, sps, ac, 2, ts, ta);
+    emit_fmfm(sps, ac, fm, fm2, rng.coin());
+    if (!fm.bases.empty()) emit_fmscale(sps, ac, fm, (double)rng.range(-8, 8) / 2.0, randWeights(rng, fm.bases.size()));
+}
+
+// ---------------------------------------------------------------- DDN
+static Matrix2D randStochastic(Rng & rng, size_t rows, size_t cols) {
+    Matrix2D m((long)rows, (long)cols); m.setZero();
+    for (size_t r = 0; r < rows; ++r) {
+        int units = 8;
+        if (rng.coin(1, 4)) { m((long)r, (long)rng.below(cols)) = 1.0; continue; }   // deterministic row (zeros elsewhere)
+        for (int u = 0; u < units; ++u) m((long)r, (long)rng.below(cols)) += 0.125;
+    }
+    return m;
+}
+struct DDNCase { F::Factors S, A; std::unique_ptr<F::DDNGraph> g; F::DDN::TransitionMatrix T; };
+static void makeDDN(Rng & rng, DDNCase & c, bool spanAll) {
+    c.g.reset(new F::DDNGraph(c.S, c.A));
+    for (size_t i = 0; i < c.S.size(); ++i) {
+        F::DDNGraph::ParentSet ps;
+        if (spanAll) { ps.agents.resize(c.A.size()); std::iota(ps.agents.begin(), ps.agents.end(), 0); }
+        else ps.agents = randTag(rng, c.A.size());
+        size_t na = F::factorSpacePartial(ps.agents, c.A);
+        for (size_t k = 0; k < na; ++k) {
+            if (spanAll) { F::PartialKeys all(c.S.size()); std::iota(all.begin(), all.end(), 0); ps.features.push_back(all); }
+            else ps.features.push_back(randTag(rng, c.S.size()));
+        }
+        c.g->push(ps);
+    }
+    c.T.clear();
+    for (size_t i = 0; i < c.S.size(); ++i) c.T.push_back(randStochastic(rng, c.g->getSize(i), c.S[i]));
+}
+static void ddn_case(Rng & rng, const std::string & tier) {
+    bool th = tier == "thorough";
+    DDNCase c;
+    if (th) { c.S = randSpace(rng, 4, 3, 18); c.A = randSpace(rng, 3, 3, 8); }
+    else { c.S = randSpace(rng, 3, 3, 12); c.A = randSpace(rng, 2, 3, 6); }
+    makeDDN(rng, c, false);
+    F::DDN ddn{*c.g, c.T};
+    auto rhs = randBF(rng, c.S, randTag(rng, c.S.size()));
+    Line l; l << "C14" << "ddn"; l.nats(c.S); l.nats(c.A);
+    const auto & pss = c.g->getParentSets();
+    l << (size_t)pss.size();
+    for (auto & ps : pss) { l.nats(ps.agents); l << (size_t)ps.features.size(); for (auto & f : ps.features) l.nats(f); }
+    l << (size_t)c.T.size(); for (auto & m : c.T) putMat(l, m);
+    putBF(l, rhs); l << "|";
+    // startIds through the public API: getId(feature, 0, actionId) and getSize
+    l << (size_t)c.S.size();
+    for (size_t i = 0; i < c.S.size(); ++i) {
+        size_t na = c.g->getPartialSize(i); l << na + 1;
+        for (size_t k = 0; k < na; ++k) l << c.g->getId(i, (size_t)0, k);
+        l << c.g->getSize(i);
+    }
+    size_t nS = F::factorSpace(c.S), nA = F::factorSpace(c.A);
+    l << c.S.size() * nS * nA;
+    for (size_t i = 0; i < c.S.size(); ++i) for (size_t s = 0; s < nS; ++s) for (size_t a = 0; a < nA; ++a)
+        l << c.g->getId(i, F::toFactors(c.S, s), F::toFactors(c.A, a));
+    l << nS * nA * nS;
+    for (size_t s = 0; s < nS; ++s) for (size_t a = 0; a < nA; ++a) for (size_t s1 = 0; s1 < nS; ++s1)
+        l << ddn.getTransitionProbability(F::toFactors(c.S, s), F::toFactors(c.A, a), F::toFactors(c.S, s1));
+    auto bp = F::backProject(ddn, rhs);
+    l.nats(bp.tag); l.nats(bp.actionTag); putMat(l, bp.values);
+    F::FactoredMatrix2D fm; fm.bases.push_back(bp);
+    putGetsM(l, c.S, c.A, fm);
+    l.emit();
+    // getIds(feature, j): inverse row lookup
+    {
+        Line r; r << "C14" << "ddnrows"; r.nats(c.S); r.nats(c.A);
+        r << (size_t)pss.size();
+        for (auto & ps : pss) { r.nats(ps.agents); r << (size_t)ps.features.size(); for (auto & f : ps.features) r.nats(f); }
+        r << "|" << (size_t)c.S.size();
+        for (size_t i = 0; i < c.S.size(); ++i) {
+            size_t sz = c.g->getSize(i); r << 2 * sz;
+            for (size_t j = 0; j < sz; ++j) { auto [pid, aid] = c.g->getIds(i, j); r << pid << aid; }
+        }
+        r << (size_t)c.S.size();
+        for (size_t i = 0; i < c.S.size(); ++i) { size_t na = c.g->getPartialSize(i); r << na; for (size_t k = 0; k < na; ++k) r << c.g->getPartialSize(i, k); }
+        r << (size_t)c.S.size();
+        for (size_t i = 0; i < c.S.size(); ++i) {
+            size_t sz = c.g->getSize(i); r << sz;
+            for (size_t j = 0; j < sz; ++j) { auto [pid, aid] = c.g->getIds(i, j); r << c.g->getId(i, pid, aid); }
+        }
+        r.emit();
+    }
+    // backProject(FactoredVector) is the per-basis map: compare structurally through an `eq` line
+    {
+        F::FactoredVector fv; fv.bases.push_back(rhs); fv.bases.push_back(randBF(rng, c.S, randTag(rng, c.S.size())));
+        auto fmx = F::backProject(ddn, fv);
+        std::vector<double> x, y;
+        for (size_t s = 0; s < nS; ++s) for (size_t a = 0; a < nA; ++a) {
+            auto fs = F::toFactors(c.S, s); auto fa = F::toFactors(c.A, a);
+            x.push_back(fmx.getValue(c.S, c.A, fs, fa));
+            double e = 0; for (size_t s1 = 0; s1 < nS; ++s1) { auto f1 = F::toFactors(c.S, s1); e += ddn.getTransitionProbability(fs, fa, f1) * fv.getValue(c.S, f1); }
+            y.push_back(e);
+        }
+        Line q; q << "C14" << "eq" << "backProject(FactoredVector)" << "not_expected_value" << "exact" << "|"; q.nums(x); q << "|"; q.nums(y); q.emit();
+    }
+    // partial-factors overload of getTransitionProbability = product over the named next-state factors only
+    {
+        std::vector<double> x, y;
+        for (int t = 0; t < 6; ++t) {
+            auto fs = F::toFactors(c.S, rng.below(nS)); auto fa = F::toFactors(c.A, rng.below(nA)); auto f1 = F::toFactors(c.S, rng.below(nS));
+            auto keys = randTag(rng, c.S.size());
+            F::PartialFactors p1; for (auto k : keys) { p1.first.push_back(k); p1.second.push_back(f1[k]); }
+            x.push_back(ddn.getTransitionProbability(F::toPartialFactors(fs), F::toPartialFactors(fa), p1));
+            double e = 1; for (auto k : keys) e *= c.T[k]((long)c.g->getId(k, fs, fa), (long)f1[k]);
+            y.push_back(e);
+        }
+        Line q; q << "C14" << "eq" << "DDN::getTransitionProbability(partial)" << "not_product_of_locals" << "exact" << "|"; q.nums(x); q << "|"; q.nums(y); q.emit();
+    }
+}
+
+// ---------------------------------------------------------------- single factor spanning all == flat
+struct ConstDist { double v; ConstDist(double x) : v(x) {} template <class G> double operator()(G &) { return v; } };
+
+static void eq_line(const char * comp, const char * kind, const char * mode, const std::vector<double> & a, const std::vector<double> & b) {
+    Line q; q << "C14" << "eq" << comp << kind << mode << "|"; q.nums(a); q << "|"; q.nums(b); q.emit();
+}
+
+static void eq_case(Rng & rng, const std::string & tier, long sub) {
+    int steps = tier == "thorough" ? 120 : 50;
+    double gammas[3] = {0.5, 0.75, 0.875}, alphas[3] = {0.5, 0.25, 1.0};
+    double gamma = gammas[rng.below(3)], alpha = alphas[rng.below(3)];
+    if (sub % 6 == 5) { // CooperativeQLearning with several random bases, replayed by the Lean model
+        DDNCase c; c.S = randSpace(rng, 3, 3, 12); c.A = randSpace(rng, 3, 2, 8);
+        makeDDN(rng, c, false);
+        std::vector<std::vector<size_t>> doms; int nd = (int)rng.range(1, 3);
+        for (int d = 0; d < nd; ++d) doms.push_back(randTag(rng, c.S.size()));
+        FM_::CooperativeQLearning cq(*c.g, doms, gamma, alpha);
+        Line l; l << "C14" << "coopq"; l.nats(c.S); l.nats(c.A);
+        const auto & pss = c.g->getParentSets(); l << (size_t)pss.size();
+        for (auto & ps : pss) { l.nats(ps.agents); l << (size_t)ps.features.size(); for (auto & f : ps.features) l.nats(f); }
+        l << (size_t)doms.size(); for (auto & d : doms) l.nats(d);
+        l << alpha << gamma;
+        F::FactoredMatrix2D q0 = cq.getQFunction();
+        size_t nS = F::factorSpace(c.S), nA = F::factorSpace(c.A);
+        int hs = 25; l << (size_t)hs;
+        for (int t = 0; t < hs; ++t) {
+            auto s = F::toFactors(c.S, rng.below(nS)), s1 = F::toFactors(c.S, rng.below(nS)); auto a = F::toFactors(c.A, rng.below(nA));
+            Vector rew((long)c.A.size()); for (long k = 0; k < rew.size(); ++k) rew[k] = dy(rng);
+            auto a1 = cq.stepUpdateQ(s, a, s1, rew);
+            l.nats(s); l.nats(a); l.nats(s1); l.nats(a1); l.nums(rew);
+        }
+        l << "|"; putFM(l, q0); putFM(l, cq.getQFunction()); l.emit();
+        ::printf("#stat coopq_multi 1\n");
+        return;
+    }
+    if (sub % 6 == 4 && (sub / 6) % 2 == 1) { // SparseCooperativeQLearning with random partial rules, replayed by the Lean model
+        F::Factors S = randSpace(rng, 3, 3, 12), A = randSpace(rng, 3, 2, 8);
+        std::vector<FM_::QFunctionRule> rules; int nr = (int)rng.range(2, 8);
+        for (int k = 0; k < nr; ++k) {
+            FM_::QFunctionRule r;
+            r.state.first = randTag(rng, S.size()); for (auto key : r.state.first) r.state.second.push_back(rng.below(S[key]));
+            r.action.first = randTag(rng, A.size()); for (auto key : r.action.first) r.action.second.push_back(rng.below(A[key]));
+            r.value = dy(rng);
+            rules.push_back(r);
+        }
+        FM_::SparseCooperativeQLearning sq(S, A, rules, gamma, alpha);
+        Line l; l << "C14" << "sparseq"; l.nats(S); l.nats(A); l << (size_t)rules.size();
+        for (auto & r : rules) { l.nats(r.state.first); l.nats(r.state.second); l.nats(r.action.first); l.nats(r.action.second); l << r.value; }
+        l << alpha << gamma;
+        size_t nS = F::factorSpace(S), nA = F::factorSpace(A);
+        int hs = 25; l << (size_t)hs;
+        for (int t = 0; t < hs; ++t) {
+            auto s = F::toFactors(S, rng.below(nS)), s1 = F::toFactors(S, rng.below(nS)); auto a = F::toFactors(A, rng.below(nA));
+            Vector rew((long)A.size()); for (long k = 0; k < rew.size(); ++k) rew[k] = dy(rng);
+            auto a1 = sq.stepUpdateQ(s, a, s1, rew);
+            l.nats(s); l.nats(a); l.nats(s1); l.nats(a1); l.nums(rew);
+        }
+        l << "|";
+        const auto & fm = sq.getQFunctionRules();
+        l << (size_t)fm.size(); for (auto it = fm.begin(); it != fm.end(); ++it) l << it->value;
+        l.emit();
+        ::printf("#stat sparseq_multi 1\n");
+        return;
+    }
+    switch (sub % 5) {
+    case 0: { // JointActionLearner: joint Q == flat QLearning on toIndex(A, a); single agent: singleQ == jointQ
+        size_t S = (size_t)rng.range(1, 4);
+        F::Factors A = rng.coin(1, 3) ? F::Factors{(size_t)rng.range(1, 4)} : randSpace(rng, 3, 3, 12);
+        size_t id = rng.below(A.size());
+        FM_::JointActionLearner jal(S, A, id, gamma, alpha);
+        AIToolbox::MDP::QLearning ql(S, F::factorSpace(A), gamma, alpha);
+        int jsteps = std::min(steps, 40);      // exact rationals grow with the history length
+        Line jl; jl << "C14" << "jal" << S; jl.nats(A) << id << alpha << gamma << (size_t)jsteps;
+        for (int t = 0; t < jsteps; ++t) {
+            size_t s = rng.below(S), s1 = rng.below(S); F::Factors a(A.size()); for (size_t k = 0; k < A.size(); ++k) a[k] = rng.below(A[k]);
+            double r = dy(rng);
+            jal.stepUpdateQ(s, a, s1, r); ql.stepUpdateQ(s, F::toIndex(A, a), s1, r);
+            jl << s; for (auto x : a) jl << x; jl << s1 << r;
+        }
+        jl << "|"; putMat(jl, jal.getJointQFunction()); putMat(jl, jal.getSingleQFunction()); jl.emit();
+        for (int t = jsteps; t < steps; ++t) {
+            size_t s = rng.below(S), s1 = rng.below(S); F::Factors a(A.size()); for (size_t k = 0; k < A.size(); ++k) a[k] = rng.below(A[k]);
+            double r = dy(rng);
+            jal.stepUpdateQ(s, a, s1, r); ql.stepUpdateQ(s, F::toIndex(A, a), s1, r);
+        }
+        std::vector<double> x, y;
+        for (size_t s = 0; s < S; ++s) for (size_t a = 0; a < F::factorSpace(A); ++a) { x.push_back(jal.getJointQFunction()(s, a)); y.push_back(ql.getQFunction()(s, a)); }
+        eq_line("JointActionLearner", "joint_q_differs_from_flat", "exact", x, y);
+        if (A.size() == 1) {
+            std::vector<double> u, v;
+            // only rows that were visited are refreshed; compare on those (an unvisited row is all zero in both)
+            for (size_t s = 0; s < S; ++s) for (size_t a = 0; a < A[0]; ++a) { u.push_back(jal.getSingleQFunction()(s, a)); v.push_back(jal.getJointQFunction()(s, a)); }
+            eq_line("JointActionLearner", "single_agent_q_differs_from_joint", "exact", u, v);
+        }
+        ::printf("#stat eq_jal 1\n");
+        break; }
+    case 1: case 2: { // CooperativeQLearning with one basis over everything == flat QLearning with summed reward
+        DDNCase c;
+        if (sub % 5 == 1) { c.S = {(size_t)rng.range(1, 4)}; c.A = {(size_t)rng.range(1, 4)}; }
+        else { c.S = randSpace(rng, 2, 3, 6); c.A = randSpace(rng, 2, 2, 4); }
+        makeDDN(rng, c, true);
+        std::vector<size_t> dom(c.S.size()); std::iota(dom.begin(), dom.end(), 0);
+        FM_::CooperativeQLearning cq(*c.g, {dom}, gamma, alpha);
+        size_t nS = F::factorSpace(c.S), nA = F::factorSpace(c.A);
+        AIToolbox::MDP::QLearning ql(nS, nA, gamma, alpha);
+        for (int t = 0; t < steps; ++t) {
+            auto s = F::toFactors(c.S, rng.below(nS)), s1 = F::toFactors(c.S, rng.below(nS)); auto a = F::toFactors(c.A, rng.below(nA));
+            Vector rew((long)c.A.size()); for (long k = 0; k < rew.size(); ++k) rew[k] = dy(rng);
+            cq.stepUpdateQ(s, a, s1, rew); ql.stepUpdateQ(F::toIndex(c.S, s), F::toIndex(c.A, a), F::toIndex(c.S, s1), rew.sum());
+        }
+        std::vector<double> x, y;
+        for (size_t s = 0; s < nS; ++s) for (size_t a = 0; a < nA; ++a) {
+            x.push_back(cq.getQFunction().getValue(c.S, c.A, F::toFactors(c.S, s), F::toFactors(c.A, a))); y.push_back(ql.getQFunction()(s, a)); }
+        eq_line("CooperativeQLearning", "differs_from_flat_qlearning", "close", x, y);
+        ::printf("#stat eq_coopq 1\n");
+        break; }
+    case 3: { // SparseCooperativeQLearning with one rule per joint (s,a) == flat QLearning with summed reward
+        F::Factors S = rng.coin() ? F::Factors{(size_t)rng.range(1, 3)} : randSpace(rng, 2, 2, 4);
+        F::Factors A = rng.coin() ? F::Factors{(size_t)rng.range(1, 3)} : randSpace(rng, 2, 2, 4);
+        size_t nS = F::factorSpace(S), nA = F::factorSpace(A);
+        std::vector<FM_::QFunctionRule> rules;
+        for (size_t s = 0; s < nS; ++s) for (size_t a = 0; a < nA; ++a)
+            rules.push_back({F::toPartialFactors(F::toFactors(S, s)), F::toPartialFactors(F::toFactors(A, a)), 0.0});
+        FM_::SparseCooperativeQLearning sq(S, A, rules, gamma, alpha);
+        AIToolbox::MDP::QLearning ql(nS, nA, gamma, alpha);
+        for (int t = 0; t < steps; ++t) {
+            auto s = F::toFactors(S, rng.below(nS)), s1 = F::toFactors(S, rng.below(nS)); auto a = F::toFactors(A, rng.below(nA));
+            Vector rew((long)A.size()); for (long k = 0; k < rew.size(); ++k) rew[k] = dy(rng);
+            sq.stepUpdateQ(s, a, s1, rew); ql.stepUpdateQ(F::toIndex(S, s), F::toIndex(A, a), F::toIndex(S, s1), rew.sum());
+        }
+        std::vector<double> x, y;
+        for (size_t s = 0; s < nS; ++s) for (size_t a = 0; a < nA; ++a) {
+            auto rs = sq.getQFunctionRules().filter(F::join(F::toFactors(S, s), F::toFactors(A, a)));
+            double v = 0; for (const auto & r : rs) v += r.value;
+            x.push_back(v); y.push_back(ql.getQFunction()(s, a)); }
+        eq_line("SparseCooperativeQLearning", "differs_from_flat_qlearning", "close", x, y);
+        ::printf("#stat eq_sparseq 1\n");
+        break; }
+    case 4: { // CooperativeModel with one factor == flat MDP::Model ; FlattenedModel == flat bandit
+        size_t n = (size_t)rng.range(1, 4), m = (size_t)rng.range(1, 3);
+        DDNCase c; c.S = {n}; c.A = {m};
+        makeDDN(rng, c, true);
+        F::FactoredMatrix2D R; R.bases.push_back(randBM(rng, c.S, c.A, {0}, {0}));
+        FM_::CooperativeModel cm(*c.g, c.T, R, gamma);
+        AIToolbox::DumbMatrix3D T3(boost::extents[n][m][n]), R3(boost::extents[n][m][n]);
+        for (size_t s = 0; s < n; ++s) for (size_t a = 0; a < m; ++a) for (size_t s1 = 0; s1 < n; ++s1) {
+            T3[s][a][s1] = c.T[0]((long)(a * n + s), (long)s1); R3[s][a][s1] = R.bases[0].values((long)s, (long)a); }
+        AIToolbox::MDP::Model flat(n, m, T3, R3, gamma);
+        std::vector<double> x, y;
+        for (size_t s = 0; s < n; ++s) for (size_t a = 0; a < m; ++a) for (size_t s1 = 0; s1 < n; ++s1) {
+            x.push_back(cm.getTransitionProbability({s}, {a}, {s1})); y.push_back(flat.getTransitionProbability(s, a, s1));
+            x.push_back(cm.getExpectedReward({s}, {a}, {s1})); y.push_back(flat.getExpectedReward(s, a, s1));
+        }
+        x.push_back(cm.getDiscount()); y.push_back(flat.getDiscount());
+        eq_line("CooperativeModel", "single_factor_differs_from_flat", "exact", x, y);
+        // deterministic rows make sampleSR comparable too: a second model whose every row is a point mass
+        {
+            DDNCase c2; c2.S = {n}; c2.A = {m}; makeDDN(rng, c2, true);
+            for (long r = 0; r < c2.T[0].rows(); ++r) { c2.T[0].row(r).setZero(); c2.T[0](r, (long)rng.below(n)) = 1.0; }
+            FM_::CooperativeModel cm2(*c2.g, c2.T, R, gamma);
+            std::vector<double> u, v;
+            for (size_t s = 0; s < n; ++s) for (size_t a = 0; a < m; ++a) {
+                auto [s1, r] = cm2.sampleSR({s}, {a});
+                size_t want = 0; for (size_t k = 0; k < n; ++k) if (c2.T[0]((long)(a * n + s), (long)k) == 1.0) want = k;
+                u.push_back((double)s1[0]); v.push_back((double)want);
+                u.push_back(r); v.push_back(R.bases[0].values((long)s, (long)a));
+                auto [s1b, rs] = cm2.sampleSRs({s}, {a});
+                u.push_back((double)s1b[0]); v.push_back((double)want);
+                u.push_back(rs.sum()); v.push_back(R.bases[0].values((long)s, (long)a));
+            }
+            eq_line("CooperativeModel", "single_factor_sampling_differs_from_flat", "exact", u, v);
+        }
+        // FlattenedModel over a factored bandit: sampleR(a) = Σ_groups arm_g[toIndexPartial(group, A, toFactors(A, a))]
+        F::Factors A = randSpace(rng, 3, 3, 18);
+        bool single = rng.coin();
+        std::vector<F::PartialKeys> groups;
+        if (single) { F::PartialKeys all(A.size()); std::iota(all.begin(), all.end(), 0); groups.push_back(all); }
+        else { int ng = (int)rng.range(1, 3); for (int g = 0; g < ng; ++g) groups.push_back(randTag(rng, A.size())); }
+        std::vector<AIToolbox::Bandit::Model<ConstDist>> arms; std::vector<std::vector<double>> tbl;
+        for (auto & g : groups) { std::vector<std::tuple<double>> args; tbl.emplace_back();
+            for (size_t k = 0; k < F::factorSpacePartial(g, A); ++k) { double v = dy(rng); args.emplace_back(v); tbl.back().push_back(v); }
+            arms.emplace_back(args); }
+        AIToolbox::Factored::Bandit::Model<ConstDist> fbm(A, groups, arms);
+        AIToolbox::Factored::Bandit::FlattenedModel<ConstDist> flatb(fbm);
+        std::vector<double> u, v;
+        u.push_back((double)flatb.getA()); v.push_back((double)F::factorSpace(A));
+        for (size_t a = 0; a < F::factorSpace(A); ++a) {
+            u.push_back(flatb.sampleR(a));
+            auto fa = F::toFactors(A, a); double e = 0;
+            for (size_t g = 0; g < groups.size(); ++g) e += tbl[g][F::toIndexPartial(groups[g], A, fa)];
+            if (single) e = tbl[0][a];      // one group spanning all agents: literally the flat arm table
+            v.push_back(e);
+        }
+        eq_line("Bandit::FlattenedModel", single ? "single_group_differs_from_flat" : "differs_from_sum_of_local_arms", "exact", u, v);
+        ::printf("#stat eq_model 1\n");
+        break; }
+    }
+}
+
+static void piek_cases(Rng & rng, const F::Factors & sp) {
+    size_t n = sp.size();
+    for (size_t mask = 1; mask < (1u << n); ++mask) {
+        F::PartialKeys keys; for (size_t k = 0; k < n; ++k) if (mask & (1u << k)) keys.push_back(k);
+        for (size_t f = 0; f < n; ++f) {
+            bool present = mask & (1u << f);
+            if (F::factorSpacePartial(keys, sp) * sp[f] > 600) continue;
+            emit_piek(sp, keys, f, rng.below(sp[f]), !present);
+        }
+    }
+}
+
+static const int kRandomQuick = 150, kRandomThorough = 3000;
+static const int kAlgQuick = 400, kAlgThorough = 60000;
+static const int kDdnQuick = 100, kDdnThorough = 12000;
+static const int kEqQuick = 160, kEqThorough = 6000;
+static long g_nSpaces = 0, g_nRandom = 0, g_nAlg = 0, g_nDdn = 0, g_nEq = 0;
+
+long verif::verif_ncases(const std::string & tier) {
+    bool th = tier == "thorough";
+    if (th) build_spaces(4, 4); else build_spaces(3, 3);
+    g_nSpaces = (long)g_spaces.size();
+    g_nRandom = th ? kRandomThorough : kRandomQuick;
+    g_nAlg = th ? kAlgThorough : kAlgQuick;
+    g_nDdn = th ? kDdnThorough : kDdnQuick;
+    g_nEq = th ? kEqThorough : kEqQuick;
+    return 1 + g_nSpaces + g_nRandom + g_nAlg + g_nDdn + g_nEq;
+}
+
+void verif::verif_case(Rng & rng, long idx, const std::string & tier) {
+    if (idx == 0) { fixed_cases(rng); return; }
+    idx -= 1;
+    if (idx < g_nSpaces + g_nRandom) {
+        core_case(rng, idx, tier);
+        {
+            const F::Factors & spc = idx < g_nSpaces ? g_spaces[idx] : F::Factors{(size_t)rng.range(1, 4), (size_t)rng.range(1, 4), (size_t)rng.range(1, 4), (size_t)rng.range(1, 3)};
+            for (int t = 0; t < 4; ++t) { emit_tipf(spc, randomPF(rng, spc)); emit_misc(rng, spc); emit_skipidx(rng, spc); emit_misc2(rng, spc); }
+            if (idx < g_nSpaces && spc.size() <= 3)     // every key subset with every value tuple
+                for (size_t mask = 1; mask < (1u << spc.size()); ++mask) {
+                    F::PartialKeys keys; for (size_t k = 0; k < spc.size(); ++k) if (mask & (1u << k)) keys.push_back(k);
+                    size_t psp = F::factorSpacePartial(keys, spc);
+                    for (size_t id = 0; id < psp; ++id) emit_tipf(spc, F::PartialFactors{keys, F::toFactorsPartial(keys, spc, id)});
+                }
+        }
+        if (idx < g_nSpaces) { if (F::factorSpace(g_spaces[idx]) <= 81) piek_cases(rng, g_spaces[idx]); }
+        else {
+            F::Factors sp = randSpace(rng, 5, 4, 400);
+            auto keys = randTag(rng, sp.size()); size_t f = rng.below(sp.size());
+            bool present = std::find(keys.begin(), keys.end(), f) != keys.end();
+            emit_piek(sp, keys, f, rng.below(sp[f]), !present);
+        }
+        return;
+    }
+    idx -= g_nSpaces + g_nRandom;
+    if (idx < g_nAlg) { alg_case(rng, tier); return; }
+    idx -= g_nAlg;
+    if (idx < g_nDdn) { ddn_case(rng, tier); return; }
+    idx -= g_nDdn;
+    eq_case(rng, tier, idx);
 }
 
 VERIF_MAIN
